@@ -5,6 +5,7 @@ total; slicing never leaves the input (`IsSlice`); the iteration ends on its
 own, not by the fuel bound.
 -/
 import CoapLite.Lemmas.LinkParse
+import CoapLite.Lemmas.Unquote
 
 namespace CoapLite.C17
 open CoapLite Link
@@ -13,6 +14,21 @@ open CoapLite Link
 character-by-character unquoted form – including a lone quote, unterminated
 quoted strings, and text following a closing quote -/
 theorem cow_eq_string (s : List Char) : toCow s = unquote s := toCow_eq_unquote s
+
+/-- the same for the iterator in EVERY state: after any number of `next()` calls, `to_cow()` is
+exactly what the character iterator still yields (the unquoted text minus what was taken) -/
+theorem cow_eq_rest_in_every_state (u : Uq) : u.toCow = u.rest := U.toCow_eq_rest u
+
+theorem cow_after_steps (s : List Char) (k : Nat) :
+    ((Uq.new s).advance k).toCow = (unquote s).drop k := Link.cow_after_steps s k
+
+/-- `next()` yields the unquoted text character by character and then `none` for ever (fused) -/
+theorem next_yields_unquote (s : List Char) (k : Nat) :
+    ((Uq.new s).advance k).next.1 = (unquote s)[k]? := Link.next_yields_unquote s k
+
+example : ((Uq.new ['"', 'a', 'b', '"', 'c', 'd']).advance 2).toCow = [] := by decide +kernel
+example : ((Uq.new ['"', 'a', 'b', '"', 'c', 'd']).advance 1).toCow = ['b'] := by decide +kernel
+example : ((Uq.new ['"', 'a', '\\', '"', 'b', '"', 'x']).advance 1).toCow = ['"', 'b'] := by decide +kernel
 
 /-- iterating the link parser yields only substrings of the input … -/
 theorem links_are_slices (input : List Char) :
